@@ -19,10 +19,10 @@ META = dict(
           'model\'s constants (arity <= 2; listed tuples of any arity); two calls must be equal; value lists must be sorted. '
           'non-trivial = distinct models with >= 2 stored facts.'),
     assumptions=['the statement is relative to the library\'s own evaluator (value_of); the evaluator itself is C08'],
-    min_events={'quick': {'models_checked': 4000, 'branch_models': 1500, 'built_models': 1500, 'predicate_tuples_checked': 20000, 'logics': 57},
-                'thorough': {'models_checked': 120000, 'logics': 57}},
-    budget=dict(quick=300, thorough=2400),
-    unit_timeout=dict(quick=240, thorough=2000),
+    min_events={'quick': {'models_checked': 4000, 'branch_models': 1500, 'built_models': 1500, 'predicate_tuples_checked': 20000, 'logics': 52},
+                'thorough': {'models_checked': 120000, 'logics': 52}},
+    budget=dict(quick=1500, thorough=2400),
+    unit_timeout=dict(quick=900, thorough=3000),
 )
 NBUILT = dict(quick=30, thorough=1200)
 NRANDOM = dict(quick=25, thorough=500)
